@@ -54,6 +54,10 @@ type propCfg struct {
 	// ExtraRun are additional test-name regexps run once (un-sharded) before
 	// the sharded run: scripted regressions, exhaustive enumerations.
 	ExtraRun string
+	// Fuzz lists native fuzz targets run in the thorough tier (coverage-guided,
+	// cannot be pinned by a seed; a crasher is the replay unit).
+	Fuzz     []string
+	FuzzTime string
 }
 
 var simAssumptions = []string{
@@ -83,9 +87,10 @@ func init() {
 	c15.ExtraRun = "^TestReplay_C15_"
 	props["C15"] = c15
 	pureAssume := []string{"the reference models in harness/refmodel are correct (they are written from the property text and are a few lines each)"}
-	props["C12"] = propCfg{Pkg: "./pure", Test: "TestC12", ExtraRun: "^TestC12Exhaustive$", Level: "exploration",
+	props["C12"] = propCfg{Pkg: "./pure", Test: "TestC12", ExtraRun: "^TestC12Exhaustive$", Level: "exploration", Fuzz: []string{"FuzzC12"}, FuzzTime: "45s",
 		Quick: tierCfg{Shards: 4, Checks: 20000}, Thorough: tierCfg{Shards: 16, Checks: 1000000}, Assumptions: pureAssume}
 	props["C18"] = propCfg{Pkg: "./logm", Test: "TestC18", ExtraRun: "^TestC18MemExhaustive$", Level: "exploration",
+		Fuzz: []string{"FuzzC18Mem", "FuzzC18View", "FuzzC18Follower"}, FuzzTime: "60s",
 		Quick: tierCfg{Shards: 8, Checks: 4000}, Thorough: tierCfg{Shards: 16, Checks: 300000},
 		Assumptions: []string{"the abstract log and the reference follower in harness/logm are correct (textbook append/compact/install-snapshot semantics)",
 			"the scripted cluster of driver L3 only emits messages a correct leader could have sent (leader completeness is enforced by the script)",
@@ -94,7 +99,7 @@ func init() {
 		Quick: tierCfg{Shards: 8, Checks: 400}, Thorough: tierCfg{Shards: 16, Checks: 20000},
 		Assumptions: []string{"the simulator itself is deterministic given its draws (no wall clock, no goroutines, sorted iteration everywhere in the harness); a harness nondeterminism would show up as a false alarm, never mask one",
 			"probabilistic detector: Go randomizes map iteration per range statement, so a map-order dependence flips with probability >= 1/2 per affected call; a dependence on something that does not vary between the runs (e.g. GOARCH) is invisible"}}
-	props["C13"] = propCfg{Pkg: "./pure", Test: "TestC13", ExtraRun: "^TestC13Closure$", Level: "exploration",
+	props["C13"] = propCfg{Pkg: "./pure", Test: "TestC13", ExtraRun: "^TestC13Closure$", Level: "exploration", Fuzz: []string{"FuzzC13"}, FuzzTime: "60s",
 		Quick: tierCfg{Shards: 8, Checks: 2500}, Thorough: tierCfg{Shards: 16, Checks: 100000}, Assumptions: pureAssume}
 }
 
@@ -384,6 +389,48 @@ func main() {
 	}
 	wg.Wait()
 
+	// 3b. native fuzzing (thorough tier only)
+	fuzzInfo := map[string]any{}
+	if tier == "thorough" && os.Getenv("VERIF_NO_FUZZ") == "" {
+		reExecs := regexp.MustCompile(`execs: (\d+)`)
+		reFail := regexp.MustCompile(`Failing input written to (\S+)`)
+		for _, target := range cfg.Fuzz {
+			fd := filepath.Join(outDir, "fuzz-"+target)
+			_ = os.MkdirAll(fd, 0o755)
+			ft := cfg.FuzzTime
+			if ft == "" {
+				ft = "60s"
+			}
+			cmd := exec.Command(bin, "-test.run=^$", "-test.fuzz=^"+target+"$", "-test.fuzztime="+ft,
+				"-test.fuzzcachedir="+filepath.Join(fd, "cache"), "-test.timeout=30m")
+			cmd.Dir = fd
+			cmd.Env = append(goEnv(), "VERIF_TIER="+tier, "VERIF_STATS_OUT=")
+			out, err := cmd.CombinedOutput()
+			_ = os.WriteFile(filepath.Join(fd, "output.log"), out, 0o644)
+			execs := 0
+			for _, mm := range reExecs.FindAllStringSubmatch(string(out), -1) {
+				if v, e := strconv.Atoi(mm[1]); e == nil && v > execs {
+					execs = v
+				}
+			}
+			fuzzInfo[target] = map[string]any{"execs": execs, "fuzztime": ft}
+			if err != nil {
+				if mm := reFail.FindStringSubmatch(string(out)); mm != nil {
+					violations++
+					rp := filepath.Join(fd, mm[1])
+					if vm := reViolation.FindStringSubmatch(string(out)); vm != nil {
+						fmt.Printf("fuzz %s: %s\n", target, vm[0])
+					} else {
+						fmt.Printf("fuzz %s: failing input %s\n%s", target, rp, tail(string(out), 30))
+					}
+					violLines = append(violLines, fmt.Sprintf("VIOLATION property=%s replay=%s", prop, rp))
+				} else {
+					fmt.Printf("fuzz %s: exit without a failing input (inconclusive):\n%s", target, tail(string(out), 15))
+				}
+			}
+		}
+	}
+
 	// 4. verdicts
 	infraProblems := 0
 	for _, r := range results {
@@ -412,6 +459,9 @@ func main() {
 
 	// 5. evidence
 	ev := mergeEvidence(prop, tier, seed, cfg, tc, results, extraReports, violations, time.Since(start))
+	if len(fuzzInfo) > 0 {
+		ev["coverage"].(map[string]any)["native_fuzz"] = fuzzInfo
+	}
 	evPath := filepath.Join(verifRoot, "evidence", prop+".json")
 	if altRepo != "" {
 		evPath = filepath.Join(outDir, "evidence.json")
